@@ -35,7 +35,7 @@ UNPROVED = ["accuracy of the f64 evaluation between the certified points (tie + 
             "and the exponential forms proved in Props/C14.v"]
 
 MANIFEST = dict(
-    text=("24 theorems over R (coq/Props/C14.v) about the formula-by-formula Gallina model of the 35 public Complex<f64> functions "
+    text=("%d theorems over R" % ntheorems("C14") + " (coq/Props/C14.v) about the formula-by-formula Gallina model of the 35 public Complex<f64> functions "
           "(31 one-argument incl. abs/arg/abs_sqr/conj, pow, powf, log, polar): z = |z|(cos arg z, sin arg z) with arg in (-pi,pi]; "
           "exp(ln z)=z; sqrt(z)^2=z; Re sqrt z>=0; Im ln z in (-pi,pi]; z^w=exp(w ln z) and powf=pow; polar round trip both ways; "
           "sin/cos/sinh/cosh = their exponential forms, exp(a+b)=exp a exp b; both Pythagorean identities; reduction to the real "
@@ -189,10 +189,11 @@ def oracle_all(z, items):
         _cov["mpmath_compared"] = _cov.get("mpmath_compared", 0) + 1
         if not _close(V[name], ref):
             return "%s(%r) = %r but the function value is %s (mpmath, 50 digits)" % (name, z, V[name], mp.nstr(ref, 17))
-    # principal branches (also on the cuts)
+    # principal branches (also on the cuts).  For a binary64 v, v in (-pi, pi] holds exactly when
+    # -fl(pi) <= v <= fl(pi), because fl(pi) < pi < succ(fl(pi)): no slack for ln and arg.
     if V["sqrt"].real < 0: return "Re sqrt(%r) = %r < 0" % (z, V["sqrt"].real)
-    if not (-PI - RANGE_SLACK < V["ln"].imag <= PI + RANGE_SLACK): return "Im ln(%r) = %r outside (-pi, pi]" % (z, V["ln"].imag)
-    if not (-PI - RANGE_SLACK < V["arg"] <= PI + RANGE_SLACK): return "arg(%r) = %r outside (-pi, pi]" % (z, V["arg"])
+    if not (-PI <= V["ln"].imag <= PI): return "Im ln(%r) = %r outside (-pi, pi]" % (z, V["ln"].imag)
+    if not (-PI <= V["arg"] <= PI): return "arg(%r) = %r outside (-pi, pi]" % (z, V["arg"])
     if abs(V["asin"].real) > PI / 2 + RANGE_SLACK: return "Re asin(%r) = %r outside [-pi/2, pi/2]" % (z, V["asin"].real)
     if not (-RANGE_SLACK <= V["acos"].real <= PI + RANGE_SLACK): return "Re acos(%r) = %r outside [0, pi]" % (z, V["acos"].real)
     # reciprocals
